@@ -323,6 +323,15 @@ pub fn gen_plan(property: &str, seed: u64, index: u64, tier: Tier) -> Plan {
                             ops.push(Op::EngineMove(rng.below(16) as u32));
                         }
                     }
+                } else if mode == 6 {
+                    // supplied position in which the side to move is in check and still holds castling
+                    // rights over empty squares: the engine must answer the check, never castle out of it
+                    scenario = "supplied-position-in-check-with-castling-rights";
+                    start = crate::gen::castle_temptation(&mut rng);
+                    knobs.insert("depth".into(), rng.range(1, 3) as i64);
+                    for _ in 0..rng.range(1, 3) {
+                        ops.push(Op::EngineMove(rng.below(16) as u32));
+                    }
                 } else if mode < 7 {
                     // supplied position that shares from/to squares with book prefixes
                     scenario = "supplied-position-book-lookalike";
